@@ -2,6 +2,7 @@ import PV.Model.Eval
 import PV.Model.Ops
 import PV.Model.Traverse
 import PV.Driver.GAOps
+import PV.Driver.NodeCountOps
 import PV.Driver.AlgoFftOps
 import PV.Driver.CompileOps
 import PV.Driver.EqHashOps
@@ -169,7 +170,7 @@ def handleTraverse : Sexp → Option Sexp
     | none => some (bad "combine")
   | .list [.atom "numnodes", e] =>
     match Expr.ofSexp? e with
-    | some e => match numNodes e with
+    | some e => match c09NumNodes e with
       | .ok n => some (Sexp.ofNat n)
       | .error err => some (depErrToSexp err)
     | none => some (bad "numnodes")
@@ -206,6 +207,7 @@ def handlers : List (Sexp → Option Sexp) :=
    , handleEqHash
    , handleCompile
    , handleC19Fft
+   , handleNodeCount
    -- HANDLERS
   ]
 
